@@ -5,6 +5,7 @@ import (
 	"go/ast"
 	"go/token"
 	"go/types"
+	"regexp"
 	"sort"
 	"strings"
 )
@@ -180,6 +181,11 @@ func (x *Exec) applyAnchor(a *Anchor, s ast.Stmt, st *State, env *Env) {
 		t := x.evalClause(a.C, sc, st, env)
 		cov := x.fc.oblige("cover", clauseLabel(a.C, 0), mergeProps(x.props, a.C.Props), x.pos(s.Pos()), and(st.pc, t), "true", "reachable with "+a.C.Text)
 		cov.Expect = "sat"
+	case "applyall":
+		// "applyall q int [trig(E, ...)]: lemmaF(args)": forall-introduction through a lemma function. The lemma's
+		// preconditions are proved for an arbitrary q (a fresh constant), its postconditions are assumed for ALL q.
+		// Only lemma functions that change no ghost state and return nothing qualify (no symbol depends on q).
+		x.applyAll(a, sc, st, env)
 	case "apply":
 		// ghost call of a lemma function: its preconditions become obligations here, its postconditions facts
 		ex, err := x.checkSpec(a.C.Text, sc.pos, x.pkg, nil)
@@ -1453,6 +1459,122 @@ func (x *Exec) havocGhostResults(ct *Contract, st *State) {
 			if cur, ok := st.vars[gp].(Scalar); ok {
 				st.vars[gp] = Scalar{x.fc.fresh(gp, cur.TI.sort()), cur.TI}
 			}
+		}
+	}
+}
+
+var applyAllRe = regexp.MustCompile(`^(\w+)\s+int\s*(?:trig\((.*?)\)\s*)?:\s*(.*)$`)
+
+func (x *Exec) applyAll(a *Anchor, sc specCtx, st *State, env *Env) {
+	m := applyAllRe.FindStringSubmatch(strings.TrimSpace(a.C.Text))
+	if m == nil {
+		x.abort("applyall: expected 'q int [trig(...)]: lemmaF(args)' in %q", a.C.Text)
+	}
+	name, trigText, callText := m[1], m[2], m[3]
+	// type-check the call with q in scope: wrap it in a function literal whose parameter is q
+	lit := "func(" + name + " int) { " + callText + " }"
+	ex, err := x.checkSpecRaw(lit, sc.pos, x.pkg)
+	if err != nil {
+		x.abort("applyall %s: %v", a.C.Text, err)
+	}
+	fl, ok := ex.(*ast.FuncLit)
+	if !ok || len(fl.Body.List) != 1 {
+		x.abort("applyall %s: not a single call", a.C.Text)
+	}
+	es, ok := fl.Body.List[0].(*ast.ExprStmt)
+	if !ok {
+		x.abort("applyall %s: not a call", a.C.Text)
+	}
+	call, ok := es.X.(*ast.CallExpr)
+	if !ok {
+		x.abort("applyall %s: not a call", a.C.Text)
+	}
+	id, _ := ast.Unparen(call.Fun).(*ast.Ident)
+	var fn *types.Func
+	if id != nil {
+		fn, _ = x.objOf(id).(*types.Func)
+	}
+	var ct *Contract
+	if fn != nil {
+		ct = x.w.Contracts[funcKey(fn)]
+	}
+	ghostFree := ct != nil
+	if ct != nil && !ct.KeepsGhosts {
+		// without keepsghosts the postconditions must not name any ghost (a named ghost would be a fresh result per q)
+		for _, cl := range ct.Ensures {
+			if ghostNameRe.MatchString(cl.Text) {
+				ghostFree = false
+			}
+		}
+	}
+	if ct == nil || !ct.Lemma || !ghostFree || fn.Type().(*types.Signature).Results().Len() != 0 || len(ct.Modifies) != 0 {
+		x.abort("applyall %s: only result-less lemma functions without modifies clause qualify, with flags keepsghosts or postconditions that name no ghost", a.C.Text)
+	}
+	q := x.fc.fresh(name, "Int")
+	qTerm := q
+	var tfl *ast.FuncLit
+	if trigText != "" {
+		tex, err := x.checkSpecRaw("func("+name+" int) bool { return trig("+trigText+") }", sc.pos, x.pkg)
+		if err != nil {
+			x.abort("applyall %s: %v", a.C.Text, err)
+		}
+		tfl = tex.(*ast.FuncLit)
+		// a trigger of the form X[q] re-indexes q by the absolute array index (like forall does), so that the
+		// pattern is (select A Q) with a bare bound variable and matches the reads of other quantified facts
+		if tc, ok := tfl.Body.List[0].(*ast.ReturnStmt).Results[0].(*ast.CallExpr); ok && len(tc.Args) == 1 {
+			if ix, ok := tc.Args[0].(*ast.IndexExpr); ok {
+				if id, ok := ix.Index.(*ast.Ident); ok && id.Name == name {
+					x.specDepth++
+					sv, isSlice := x.eval(ix.X, st, env).(Slice)
+					x.specDepth--
+					if isSlice {
+						qTerm = simpSub(q, sv.Off)
+					}
+				}
+			}
+		}
+	}
+	env2 := newEnv(env)
+	env2.vals[x.objOf(fl.Type.Params.List[0].Names[0])] = Scalar{qTerm, intTI}
+	var pats string
+	if trigText != "" {
+		env3 := newEnv(env)
+		env3.vals[x.objOf(tfl.Type.Params.List[0].Names[0])] = Scalar{qTerm, intTI}
+		x.specDepth++
+		x.trigStack = append(x.trigStack, nil)
+		x.eval(tfl.Body.List[0].(*ast.ReturnStmt).Results[0], st, env3)
+		for _, t := range x.trigStack[len(x.trigStack)-1] {
+			pats += " :pattern " + t
+		}
+		x.trigStack = x.trigStack[:len(x.trigStack)-1]
+		x.specDepth--
+	}
+	n0 := len(x.fc.facts)
+	x.evalCall(call, st, env2)
+	bv := "|" + strings.Trim(q, "|") + "!all|"
+	var reidx [][2]string
+	if qTerm != q {
+		off := strings.TrimSuffix(strings.TrimPrefix(qTerm, "(- "+q+" "), ")")
+		reidx = append(reidx, [2]string{"(+ " + off + " " + qTerm + ")", q}, [2]string{"(+ " + qTerm + " " + off + ")", q})
+	}
+	for _, r := range reidx {
+		pats = strings.ReplaceAll(pats, r[0], r[1])
+	}
+	for i := n0; i < len(x.fc.facts); i++ {
+		for _, r := range reidx {
+			x.fc.facts[i] = strings.ReplaceAll(x.fc.facts[i], r[0], r[1])
+		}
+		f := x.fc.facts[i]
+		if !strings.Contains(f, q) || !strings.HasPrefix(f, "(assert ") {
+			continue
+		}
+		inner := strings.TrimSuffix(strings.TrimPrefix(f, "(assert "), ")")
+		inner = strings.ReplaceAll(inner, q, bv)
+		p := strings.ReplaceAll(pats, q, bv)
+		if p != "" {
+			x.fc.facts[i] = "(assert (forall ((" + bv + " Int)) (! " + inner + p + ")))"
+		} else {
+			x.fc.facts[i] = "(assert (forall ((" + bv + " Int)) " + inner + "))"
 		}
 	}
 }
